@@ -142,6 +142,21 @@ def run(ctx: Ctx):
 
     rs = residual_of(list(own_nodes(bfs.node)), {a: "A", b: "B"})
     rm = residual_of(list(own_nodes(f.node)), {"u": "A", "v": "B"})
+    def _depth(node, target, d=0):
+        for ch in ast.iter_child_nodes(node):
+            if isinstance(ch, (ast.FunctionDef, ast.Lambda)):
+                continue
+            if ch is target:
+                return d
+            r_ = _depth(ch, target, d + (1 if isinstance(ch, (ast.For, ast.While)) else 0))
+            if r_ is not None:
+                return r_
+        return None
+
+    fl_upd = [n for n in own_nodes(f.node) if isinstance(n, ast.AugAssign) and isinstance(n.target, ast.Subscript) and isinstance(n.target.value, ast.Subscript)]
+    several_paths_per_search = any((_depth(f.node, n) or 0) >= 3 for n in fl_upd)
+    if len(rs) >= 1 and not rm and several_paths_per_search:
+        ctx.ob("C08-O2", "R18 SIBLING-AGREEMENT (expression)", f, "the bottleneck of an augmentation is the minimum residual along the path, read from the tables when the path is applied (in the augmenting loop)", False, "one search result is applied as several paths and the augmenting loop computes no residual: a bottleneck measured during the search is stale as soon as another path found by the same search has been applied - paths that share an arc overfill it", node=f.node)
     ctx.require(len(rs) == 1 and len(rm) == 1, "residual computation not found once in bfs and once in the augmentation")
     c1 = canon(rs[0][0], rs[0][1])
     c2 = canon(rm[0][0], rm[0][1])
